@@ -56,7 +56,7 @@ def distances(r):
 
 def plan(tier, seed):
     rs = resolutions(tier, seed)
-    shards = [(r, fp) for r in rs for fp in range(4)] + [("env", r) for r in (1, 7, 192, 480)]
+    shards = [(r, fp) for r in rs for fp in range(4)] + [("env", r) for r in (1, 7, 192, 480)] + [("order", r, fp) for r in (2, 7, 192) for fp in range(4)]
     return dict(shards=shards, bounds=dict(resolutions=(rs if len(rs) < 50 else "1..400 + %r" % [r for r in rs if r > 400])), budget_s=1500 if tier == "thorough" else 300)
 
 
@@ -119,9 +119,53 @@ def _env_shard(ctx, r):
                     e1.report(ctx, "decision-packed", text, PROBE_SRC, [exp], got if len(str(got)) < 400 else str(got)[:400], "resolution %d distance %d in environment %r, first tick %d" % (r, d, ename, base))
 
 
+def ordered_lines(t, combo, flags, order):
+    """Lines of one tick with the flag lines after / before / between the lane lines (a flag line before an
+    OPEN-note line stays outside the domain, DESIGN.md 3.1)."""
+    lanes = note_lines(t, combo, ())
+    fl = ["%d = N %d 0" % (t, f) for f in flags]
+    if order == "after" or not combo or not fl:
+        return lanes + fl
+    if order == "before":
+        return fl + lanes
+    return lanes[:1] + fl + lanes[1:]
+
+
+def _order_shard(ctx, r, fpi):
+    fa = FLAGS[fpi]
+    thr = (r + 1) // 3
+    gap = 10 * r + 50
+    for d in distances(r):
+        for fb in FLAGS:
+            if not fa and not fb:
+                continue
+            for order in ("before", "between"):
+                ctx.node()
+                body = note_lines(0, (0,))
+                exp = ["STRUM"]
+                t = gap
+                for a in COMBOS:
+                    for b in COMBOS:
+                        body += ordered_lines(t, a, fa, order) + ordered_lines(t + d, b, fb, order)
+                        exp += [far_rule(fa), rule(a, fa, b, fb, d, thr)]
+                        t += d + gap
+                text = mk(res=r, tracks={"ExpertSingle": body})
+                got = e1.run_probe(probe, text)
+                ctx.executions += 1
+                ctx.node(1024)
+                ctx.evaluations += len(exp)
+                ctx.nontrivial += 1024
+                ctx.hist["flag_order_tracks"] += 1
+                if got != exp:
+                    k = next((i for i in range(min(len(exp), len(got))) if got[i] != exp[i]), 0) if isinstance(got, list) and got[:1] != ["raises"] else 0
+                    e1.report(ctx, "decision-packed", text, PROBE_SRC, [exp], got if len(str(got)) < 300 else str(got)[:300], "resolution %d distance %d flags %r/%r with the flag lines written %s the lane lines (first difference at note %d)" % (r, d, fa, fb, order, k))
+
+
 def run_shard(shard, ctx):
     if shard[0] == "env":
         return _env_shard(ctx, shard[1])
+    if shard[0] == "order":
+        return _order_shard(ctx, shard[1], shard[2])
     r, fpi = shard
     fa = FLAGS[fpi]
     thr = (r + 1) // 3
